@@ -460,7 +460,13 @@ fn judge(out: &mut Out, id: &str, d: Dialect, df: &Defect, text: &str) {
                 }
             } else {
                 // listed findings: rejected, but with a message about something else
-                let sig = if df.class == "duplicate_function" {
+                let cse_msg = d.stepping() >= 23 && m.contains("Unbound use of v") && m.contains("_$_") && !df.names.iter().any(|n| m.contains(n.as_str()));
+                let sig = if cse_msg && (text.contains("(assign") ) {
+                    // listed C01 finding cl23-cse-hoists-assign-bound-variable: the optimising dialects' CSE pass hoists a repeated
+                    // subexpression out of an assign form and then reports the assign-bound variable as unbound; here it fires before
+                    // the injected defect is looked at (the program is rejected, with a message about a generated name)
+                    Some("cl23-cse:assign-bound-variable-hoisted")
+                } else if df.class == "duplicate_function" {
                     // the twin compiles and the only change is the second definition, so whatever the message says it is
                     // the compiler's reaction to the redefinition (observed: no such callable 'letbinding_$_N' / 'if' / another
                     // function, Unbound use of lambda_$_N, Don't yet support this call type)
